@@ -178,6 +178,8 @@ class _Interp:
         self.postests = []        # (position-valued term, how it was tested, top-level statement): a field position used as a found/not-found flag
         self.opaque = []          # calls of callees whose body was not followed (they may raise)
         self.asserts = 0
+        self.tested = {}          # list id -> how many segments the list had at each membership test on it
+        self.pylists = set()      # ids of LIST terms that are certainly python lists (a list display, a list comprehension, list(...))
 
     # -- driver ------------------------------------------------------------------------------------------------------
     def run(self):
@@ -213,6 +215,26 @@ class _Interp:
         self.heap[i] = list(segs)
         self.listctx[i] = ctx if ctx is not None else (st.loops, st.guards)
         return ("LIST", i)
+
+    def pylist(self, t):
+        if t[0] == "LIST":
+            self.pylists.add(t[1])
+        return t
+
+    def known_isinstance(self, t, st):
+        """the value of `isinstance(x, <classes>)` when x is a list built here: True / False, or None when it is not known"""
+        if not (isinstance(t, ast.Call) and isinstance(t.func, ast.Name) and t.func.id == "isinstance" and st.lookup("isinstance") is None
+                and len(t.args) == 2 and not t.keywords and isinstance(t.args[0], ast.Name)):
+            return None
+        v = st.lookup(t.args[0].id)
+        if v is None or v[0] != "LIST" or v[1] not in self.pylists:
+            return None
+        types = self.type_names(t.args[1], st)
+        if "list" in types or "object" in types:
+            return True
+        if types <= _NOT_LIST_CLASSES:
+            return False
+        return None
 
     def newloop(self, src, node):
         lp = _Loop(next(self._ids), src, node)
@@ -452,6 +474,11 @@ class _Interp:
         neg, t = False, s.test
         while isinstance(t, ast.UnaryOp) and isinstance(t.op, ast.Not):
             neg, t = not neg, t.operand
+        known = self.known_isinstance(t, st)
+        if known is not None:
+            # the class of a list built here is known: only one arm can run
+            arm = s.body if known != neg else s.orelse
+            return self.block(arm, st) if arm else {N_}
         if isinstance(t, ast.Call):
             v = self.ev(t, st)
             if v[0] == "RETS" and all(alt[0][0] == "C" for alt in v[1:]):
@@ -592,6 +619,9 @@ class _Interp:
 
     # -- for -----------------------------------------------------------------------------------------------------------
     def iterate(self, it, target, st, body, node):
+        it = self.dictkind(it)
+        if it[0] == "IMAP":
+            it = ("NAMES", it[1])      # walking a dict walks its keys, in insertion order
         self.use(it)
         status = set()
         if it[0] == "LIST":
@@ -677,7 +707,7 @@ class _Interp:
             elems = [self.ev(x, st) for x in e.elts]
             if isinstance(e, ast.Tuple):
                 return ("TUPLE",) + tuple(elems)
-            return self.newlist(st, [_Seg((), (), x) for x in elems])
+            return self.pylist(self.newlist(st, [_Seg((), (), x) for x in elems]))
         if isinstance(e, ast.Dict) and not e.keys:
             return self.newdict(st)
         if isinstance(e, ast.DictComp):
@@ -696,7 +726,7 @@ class _Interp:
                 self.append(lst, self.ev(e.elt, stc), stc)
                 return {N_}
             self.comp_iter(e.generators, st.child(own_vars=True), leaf)
-            return lst
+            return self.pylist(lst) if isinstance(e, ast.ListComp) else lst
         if isinstance(e, ast.Compare) and len(e.ops) == 1:
             a, b = self.ev(e.left, st), self.ev(e.comparators[0], st)
             if isinstance(e.ops[0], ast.Eq):
@@ -837,6 +867,8 @@ class _Interp:
             if b[0] == "IMAP":
                 b = ("NAMES", b[1])
             self.use(b)
+            if b[0] == "LIST":
+                self.tested.setdefault(b[1], []).append(len(self.heap.get(b[1], [])))
             return ("IN", a, _members(b)), isinstance(op, ast.In)
         # IMAP.get(name, <sentinel>) compared with its sentinel: membership in disguise
         for x, y, o in ((a, b, op), (b, a, _MIRROR.get(type(op), type(op))())):
@@ -902,14 +934,13 @@ class _Interp:
         is_np = full.startswith("numpy") or d.split(".")[0] in ("np", "numpy")
         a0 = args[0] if args else None
         if nm == "isinstance" and len(c.args) == 2:
-            ty = c.args[1]
-            names = [norm(x).split(".")[-1] for x in (ty.elts if isinstance(ty, (ast.Tuple, ast.List)) else [ty])]
-            return ("ISINST", a0, frozenset(names))
+            return ("ISINST", a0, frozenset(self.type_names(c.args[1], st)))
         if nm in ("list", "tuple", "set", "frozenset") and isinstance(f, ast.Name):
             if a0 is None:
-                return self.newlist(st)
+                return self.pylist(self.newlist(st)) if nm == "list" else self.newlist(st)
             self.use(a0)
-            return self.copy_of(a0, st)
+            r = self.copy_of(a0, st)
+            return self.pylist(r) if nm == "list" and a0[0] == "LIST" else r
         if nm in ("deepcopy", "copy") and a0 is not None and len(args) == 1:
             return self.copy_of(a0, st)
         if nm == "len" and a0 is not None:
@@ -977,6 +1008,11 @@ class _Interp:
                 return ("POSQ", recv[1], a0, args[1] if len(args) == 2 else ("C", None))
             if nm == "keys" and not args:
                 return ("NAMES", recv[1])
+            # a dict keeps insertion order and field names are distinct: the dict is walked in field order
+            if nm == "items" and not args:
+                return ("ZIP", ("NAMES", recv[1]), ("RANGE", recv[1]))
+            if nm == "values" and not args:
+                return ("RANGE", recv[1])
         if recv[0] in ("LIST", "DESCR", "NAMES") and nm in ("append", "extend", "insert", "pop", "remove", "sort", "reverse", "clear", "add", "update", "discard"):
             lst = recv
             if recv[0] != "LIST":
@@ -1010,6 +1046,55 @@ class _Interp:
         if nm == "nonzero" and recv[0] == "NAMEEQ" and not args:
             return ("WHERE", recv[1], recv[2])
         return ("MCALL", nm or "?", recv, tuple(args))
+
+    def type_names(self, ty, st, depth=0):
+        """the class names the second argument of isinstance() stands for, whichever way the tuple of classes is spelled (written in
+        place, a local, a module-level constant bound once, a sum of such).  '?' stands for a part that was not resolved: the set
+        is then only a lower bound"""
+        if isinstance(ty, (ast.Tuple, ast.List)):
+            out = set()
+            for x in ty.elts:
+                out |= self.type_names(x, st, depth)
+            return out
+        if isinstance(ty, ast.BinOp) and isinstance(ty.op, ast.Add):
+            return self.type_names(ty.left, st, depth) | self.type_names(ty.right, st, depth)
+        if isinstance(ty, ast.Name):
+            v = st.lookup(ty.id) if st is not None else None
+            if v is not None:
+                return self._type_names_of(v, st, depth)
+            return self._global_type_names(ty.id, st.module if st is not None else None, depth)
+        if isinstance(ty, ast.Attribute):
+            d = dotted_name(ty)
+            return {d.split(".")[-1]} if d else {"?"}
+        return {"?"}
+
+    def _global_type_names(self, name, module, depth):
+        if module is not None and depth < 4:
+            k, e = _module_binding(module, name)
+            if k == "const":
+                return self.type_names(e, _St({}, module), depth + 1)
+            if k == "unknown":
+                return {"?"}
+        return {name}
+
+    def _type_names_of(self, v, st, depth):
+        if v[0] == "TUPLE":
+            out = set()
+            for x in v[1:]:
+                out |= self._type_names_of(x, st, depth)
+            return out
+        if v[0] == "G":
+            if "." in v[1]:
+                return {v[1].split(".")[-1]}
+            return self._global_type_names(v[1], st.module if st is not None else None, depth)
+        if v[0] == "LIST":
+            segs = self.heap.get(v[1], [])
+            if all(not s.loops and not s.guards and s.elem[0] != "TAINT" for s in segs):
+                out = set()
+                for s in segs:
+                    out |= self._type_names_of(s.elem, st, depth)
+                return out
+        return {"?"}
 
     def _bindargs(self, fn, args, kws, st, module):
         a = fn.args
@@ -1065,11 +1150,39 @@ class _Interp:
         return ("RETS",) + tuple((v, tuple(gs[n0:])) for v, gs in rets)
 
 
+_NOT_LIST_CLASSES = frozenset(["str", "bytes", "str_", "bytes_", "unicode", "tuple", "ndarray", "set", "frozenset", "dict", "int", "float", "bool", "number", "Number"])
 _MIRROR = {ast.Lt: ast.Gt, ast.Gt: ast.Lt, ast.LtE: ast.GtE, ast.GtE: ast.LtE}
 _OPTEXT = {ast.Lt: "<", ast.Gt: ">", ast.LtE: "<=", ast.GtE: ">=", ast.Eq: "==", ast.NotEq: "!="}
 _PURE_BUILTINS = {"len", "str", "repr", "int", "float", "bool", "sorted", "reversed", "min", "max", "sum", "any", "all", "isinstance", "type", "id", "hash",
                   "print", "format", "abs", "range", "zip", "enumerate", "map", "filter", "set", "frozenset", "list", "tuple", "dict", "getattr", "hasattr",
                   "ValueError", "TypeError", "KeyError", "IndexError", "RuntimeError", "Exception"}
+
+
+def _module_binding(module, name):
+    """how a module-level name is bound: ('const', expr) one plain assignment at module level and no other binding anywhere in the
+    module; ('none', None) not bound in the module (a builtin); ('unknown', None) anything else"""
+    cache = module.__dict__.setdefault("_c07_bindings", {})
+    if name in cache:
+        return cache[name]
+    stores = 0
+    for n in ast.walk(module.tree):
+        if isinstance(n, ast.Name) and n.id == name and isinstance(n.ctx, (ast.Store, ast.Del)):
+            stores += 1
+        elif isinstance(n, (ast.FunctionDef, ast.AsyncFunctionDef, ast.ClassDef)) and n.name == name:
+            stores += 2
+        elif isinstance(n, (ast.Import, ast.ImportFrom)) and any((al.asname or al.name.split(".")[0]) == name for al in n.names):
+            stores += 2
+        elif isinstance(n, ast.arg) and n.arg == name:
+            stores += 2
+    top = [n for n in module.tree.body if isinstance(n, ast.Assign) and len(n.targets) == 1 and isinstance(n.targets[0], ast.Name) and n.targets[0].id == name]
+    if stores == 0:
+        r = ("none", None)
+    elif stores == 1 and len(top) == 1:
+        r = ("const", top[0].value)
+    else:
+        r = ("unknown", None)
+    cache[name] = r
+    return r
 
 
 def _const_int(t):
@@ -1187,6 +1300,46 @@ def _shape_verdict(shp, inputs):
     return None
 
 
+def _copies(it):
+    """the places where the fields of one array are copied into another by name: calls of copy_fields, and the same thing written
+    out (in place, or in a private helper the evaluator followed): a loop over ALL the names of the source's dtype, in which
+    `<allocation>[name] = <source>[name]` runs for every name (or for every name the destination has, as copy_fields does).
+    Each is an event with a_arr1 = source, a_arr2 = destination, under the tests and loops around the whole copy."""
+    got = getattr(it, "_copies", None)
+    if got is not None:
+        return got
+    out = list(it.of("copy_fields"))
+    for e in it.of("store"):
+        b, k, v = e.d["base"], e.d["key"], e.d["value"]
+        if b[0] != "ALLOC" or k[0] != "NAME" or k[2][0] != "K" or k[1][0] != "DT":
+            continue
+        F, S = k[1], k[1][1]
+        lp = [l for l in e.loops if l.id == k[2][1]]
+        if not lp or not _in_order_over(lp[0], F) or v != ("ITEM", S, k):
+            continue
+        lp = lp[0]
+        inside = set(map(id, ast.walk(lp.node))) if lp.node is not None else None
+        around, skips = [], False
+        for g in e.guards:
+            if g.cond[0] in _OPAQUE_CONDS:
+                dep = inside is None or g.node is None or id(g.node) in inside
+            else:
+                dep = _mentions_loop(g.cond, lp.id)
+            if not dep:
+                around.append(g)
+            elif g.kind != "reject" and not (g.cond == ("IN", k, ("NAMES", ("DT", b))) and g.pol):
+                skips = True        # some names are left out
+        if skips:
+            continue
+        c = _Event()
+        c.kind, c.d, c.loops, c.guards, c.seq, c.site, c.depth, c.node = "copy_fields", {"a_arr1": S, "a_arr2": b}, tuple(l for l in e.loops if l is not lp), \
+            tuple(around), e.seq, e.site, e.depth, e.node
+        out.append(c)
+    out.sort(key=lambda c: c.seq)
+    it._copies = out
+    return out
+
+
 def common(chk, repo, eng, fi):
     q = fi.qualname
     it = interp(repo, fi)
@@ -1215,8 +1368,8 @@ def common(chk, repo, eng, fi):
         chk.ob("R07.alloc", q + "::zero-filled", ALLOCATORS[z.d["fn"]], _where(fi, z), "new fields start zero-filled (allocated with %s)" % z.d["fn"])
     tags_ = [z.d["tag"] for z in allocs]
     # (d) data copied by copy_fields(input, new) after the allocation
-    cps = it.of("copy_fields")
-    chk.ob("R07.copy", q + "::copy-call-present", _tri(len(cps) >= 1, it.failed is None), fi.where(), "data are copied with copy_fields")
+    cps = _copies(it)
+    chk.ob("R07.copy", q + "::copy-call-present", _tri(len(cps) >= 1, it.failed is None), fi.where(), "data are copied with copy_fields (or field by field, by name, for every field)")
 
     def is_input(t):
         if combine_:
@@ -1540,6 +1693,52 @@ def _seg_text(segs):
     return "; ".join("for %s if %s: %s" % ([_show(lp.src) for lp in s.loops], _filters(s.guards), _show(s.elem)) for s in segs)
 
 
+_OPAQUE_CONDS = ("MAYRET", "MAYBREAK", "MAYSKIP", "EXISTS", "SOME", "NOTALL", "X", "TAINT")
+
+
+def _mentions_loop(t, lid):
+    if isinstance(t, tuple):
+        if t and t[0] in ("C", "ALLOC", "LIST", "DICT"):
+            return False
+        return any(_mentions_loop(x, lid) for x in t)
+    return isinstance(t, int) and not isinstance(t, bool) and t == lid
+
+
+def _subst(t, old, new):
+    if t == old:
+        return new
+    if isinstance(t, tuple) and not (t and t[0] == "C"):
+        return tuple(_subst(x, old, new) for x in t)
+    return t
+
+
+def _plain_filters(it, seg, F, depth=0):
+    """the tests an entry must pass to be taken, as [(condition, polarity)], with a test `name in <names selected before>` replaced by
+    the selection's own tests on that name:  name_k in [name_j for j in fields if P(name_j)]  <=>  P(name_k)  (take j = k; P looks at
+    nothing of j but its name).  The list must have been complete at every membership test on it."""
+    out = []
+    for g in _filters(seg.guards):
+        c = g.cond
+        done = False
+        if depth < 3 and c[0] == "IN" and c[2][0] == "LIST" and c[1][0] == "NAME" and c[1][1] == F:
+            segs = it.heap.get(c[2][1], [])
+            if len(segs) == 1 and len(segs[0].loops) == 1 and all(n == 1 for n in it.tested.get(c[2][1], [0])):
+                sg, lp = segs[0], segs[0].loops[0]
+                mine = ("NAME", F, ("K", lp.id))
+                inner = _plain_filters(it, sg, F, depth + 1)
+                if sg.elem == mine and _in_order_over(lp, F) and not any(l is lp for l in seg.loops) and \
+                        all(ic[0] not in _OPAQUE_CONDS and not _mentions_loop(_subst(ic, mine, ("NAME", F, ("K", "*"))), lp.id) for ic, _ in inner):
+                    if g.pol:
+                        out.extend((_subst(ic, mine, c[1]), ip) for ic, ip in inner)
+                        done = True
+                    elif len(inner) == 1:
+                        out.append((_subst(inner[0][0], mine, c[1]), not inner[0][1]))
+                        done = True
+        if not done:
+            out.append((c, g.pol))
+    return out
+
+
 def _filtered(chk, fi, it, alloc, pname, pol, key1, msg1, key2=None, msg2=None):
     """the new descr is: for every entry of arr.dtype.descr in order, the unmodified entry, kept when (pol) its name is in <pname>"""
     q = fi.qualname
@@ -1551,10 +1750,10 @@ def _filtered(chk, fi, it, alloc, pname, pol, key1, msg1, key2=None, msg2=None):
         if len(segs) == 1 and len(segs[0].loops) == 1 and _in_order_over(segs[0].loops[0], F):
             s = segs[0]
             key = ("K", s.loops[0].id)
-            fl = _filters(s.guards)
-            if s.elem == ("ENTRY", F, key) and len(fl) == 1 and fl[0].cond[0] == "IN" and fl[0].pol == pol and _param_of(fl[0].cond[2]) == pname:
+            fl = _plain_filters(it, s, F)
+            if s.elem == ("ENTRY", F, key) and len(fl) == 1 and fl[0][0][0] == "IN" and fl[0][1] == pol and _param_of(fl[0][0][2]) == pname:
                 ok = True
-                ok2 = fl[0].cond[1] == ("NAME", F, key)
+                ok2 = fl[0][0][1] == ("NAME", F, key)
                 ok = ok and ok2
     chk.ob("R07.order", q + "::" + key1, ok, fi.where(), msg1 + " (found: %s)" % _seg_text(segs))
     if key2:
@@ -1579,10 +1778,28 @@ def extract(chk, repo, fi, it, alloc):
             not (u[0] == "P" and any(g.cond[0] == "ISINST" and g.cond[1] == u and
                                      (g.pol and set(g.cond[2]) <= seqs or not g.pol and "str" in g.cond[2] and not set(g.cond[2]) & seqs) for g in gs))]
     need = {"tuple", "list", "ndarray"}
-    bad = [u for u in uses if u[0] == "P" or (u[0] == "NORM" and u[2] == "unless" and not need <= set(u[3]))
-           or (u[0] == "NORM" and u[2] == "when" and set(u[3]) & need)]
-    good = [u for u in uses if u[0] == "NORM" and (u[2] == "atleast_1d" or u[2] == "unless" and need <= set(u[3]) or u[2] == "when" and not set(u[3]) & need)]
-    ok = False if bad else (True if good and len(good) == len(uses) and it.failed is None else None)
+    scalar = {"str", "bytes", "str_", "bytes_", "unicode", "basestring"}     # what a single field name is
+
+    def wrapping(u):
+        """True: scalars are wrapped and the documented sequences are not; False: a documented sequence is wrapped or a scalar is
+        not; None: not known ('?' in the set of classes: some of them were not resolved)"""
+        if u[0] != "NORM":
+            return False
+        mode, types = u[2], set(u[3])
+        if mode == "atleast_1d":
+            return True
+        if mode == "unless":
+            if types & scalar or (not need <= types and "?" not in types):
+                return False
+            return True if need <= types and "?" not in types else None
+        if mode == "when":
+            if types & need:
+                return False
+            return True if "?" not in types else None
+        return None
+    verdicts = [wrapping(u) for u in uses]
+    bad = [u for u, v in zip(uses, verdicts) if v is False]
+    ok = False if bad else (True if uses and all(v is True for v in verdicts) and it.failed is None else None)
     chk.ob("R07.args", q + "::scalar-name-wrapped", ok, fi.where(),
            "a scalar name is wrapped; tuple, list and array name lists are taken as they are%s"
            % ("" if not bad else ": `%s` is used as a collection of names as it was passed in (a single string is then a collection of characters / substrings)" % _show(bad[0])))
@@ -1657,7 +1874,7 @@ def add(chk, repo, fi, it, alloc):
     chk.ob("R07.defaults", q + "::defaults-not-converted", ok, fi.where(),
            "the default values are applied one by one with their own types (only wrapped in a list, never converted to an array)%s" % conv)
     # order: copy of old data before defaults
-    cps = [c for c in it.of("copy_fields") if c.d.get("a_arr2") == tag]
+    cps = [c for c in _copies(it) if c.d.get("a_arr2") == tag]
     if cb and cps:
         first = cps[0]
         dom = first.seq < cb[0].seq and all(g in cb[0].guards for g in _filters(first.guards))
@@ -1791,7 +2008,7 @@ def copiers(chk, repo):
         """True: n ranges over the names of one array and is tested for membership in the other's (or over the intersection);
         False: it ranges over one array's names but some are skipped or none is tested; None: the range of n is not recognised"""
         e, k = s[0], s[1]
-        fl = [g for g in _filters(e.guards) if g.kind != "path"]
+        fl = [g for g in _filters(e.guards) if g.kind != "path" and not covered(g, e)]
         for Fa, Fb in ((F1, F2), (F2, F1)):
             if k[0] == "NAME" and k[1] == Fa and k[2][0] == "K" and len(e.loops) == 1 and e.loops[0].id == k[2][1] and _in_order_over(e.loops[0], Fa):
                 ins = [g for g in fl if g.cond == ("IN", k, ("NAMES", Fb)) and g.pol]
@@ -1806,13 +2023,35 @@ def copiers(chk, repo):
             if d[0] == "CALL" and d[1] == "intersect1d" and set(d[2]) == both:
                 return True
         return None
+    def same_layout(g):
+        """the test says both arrays have the same fields of the same types in the same order (equal dtypes or descrs): matching the
+        fields by position is then matching them by name, every field is a common one and nothing is converted"""
+        c = g.cond
+        return c[0] == "EQ" and g.pol and {c[1], c[2]} in ({F1, F2}, {("DESCR", F1), ("DESCR", F2)})
+
+    def whole_record(s):
+        """arr2[...] = arr1 where both arrays have the same field list: every field is copied to the field of the same name"""
+        e, k, v = s
+        return k == ("C", Ellipsis) and v == src and not e.loops and any(same_layout(g) for g in e.guards)
+    whole = [s for s in stores if not byname(s) and whole_record(s)]
+
+    def covered(g, e):
+        """g is the outcome of a test whose other outcome copies every field in one whole-record store (a fast path for arrays of the
+        same layout): taking the other way around the by-name loop e loses nothing"""
+        if g.node is None:
+            return False
+        for w, _, _ in whole:
+            own = [h for h in w.guards if not any(h is x for x in e.guards)]
+            if own and all(h.node is g.node for h in own) and not any(h is g for h in w.guards) and any(same_layout(h) for h in own):
+                return True
+        return False
     bn = [s for s in stores if byname(s)]
     verdicts = [common_names(s) for s in bn]
     ok = True if any(v is True for v in verdicts) else (False if any(v is False for v in verdicts) or backwards else None)
     chk.ob("R07.copier", q + "::assigns-every-common-name", ok, fi.where(), "copy_fields assigns arr2[name] = arr1[name] for every name of arr1 that arr2 also has (%s)"
            % ([(_show(s[1]), list(s[0].loops), _filters(s[0].guards)) for s in bn] or it.failed or "no such store"))
     # every write into the destination is by field name, and the by-name loop is on every normal path (no positional shortcut)
-    other = [s for s in stores if not byname(s)]
+    other = [s for s in stores if not byname(s) and not any(s is w for w in whole)]
     chk.ob("R07.copier", q + "::destination-written-by-name-only", _tri(bool(stores) and not other and not unknown and not backwards and it.failed is None, bool(other) or bool(backwards)),
            _where(fi, (other or stores or [(None,)])[0][0]),
            "every store into the destination is `%s[name] = %s[name]` with one name (fields are matched by name, never by position): %s"
@@ -1824,7 +2063,7 @@ def copiers(chk, repo):
         if c[0] == "TRUE" and g.pol and c[1][0] == "LIST":
             return any(tuple(sg.loops) == tuple(e.loops) for sg in it.heap.get(c[1][1], []))
         return c[0] == "TRUE" and g.pol and c[1] in (("SIZE", src), ("SIZE", dst))
-    skipped = [g for e in full for g in e.guards if g.kind in ("path", "break") and not nothing_to_copy(g, e)]
+    skipped = [g for e in full for g in e.guards if g.kind in ("path", "break") and not nothing_to_copy(g, e) and not covered(g, e)]
     chk.ob("R07.copier", q + "::by-name-loop-on-every-path", _tri(bool(full) and not skipped, bool(skipped)), fi.where(),
            "every normal return passes through the by-name loop (no early return around it)%s" % ("" if not skipped else ": %s" % skipped[:2]))
     sizes = lambda g: g.cond[0] == "EQ" and not g.pol and g.cond[1][0] == g.cond[2][0] and g.cond[1][0] in ("SIZE", "SHAPE") and {g.cond[1][1], g.cond[2][1]} == {src, dst}  # noqa: E731
